@@ -105,7 +105,17 @@ fn batch(tier: &str) -> i32 {
     );
     let known = KnownFindings::load();
     let t0 = Instant::now();
-    let mut agg = simcore::par_batch(runs, simcore::workers(), 4, |idx, agg| run_one(seed, idx, tier, agg, &known));
+    let mut agg = simcore::par_batch_watched(
+        runs,
+        simcore::workers(),
+        4,
+        |idx, agg| run_one(seed, idx, tier, agg, &known),
+        |idx| {
+            let mut rng = Rng::derive(seed, ENGINE_TAG, idx);
+            let sc = gen::generate(&mut rng, tier, idx);
+            simcore::report_hang(PROPERTY, seed, idx, json!({"engine": "e1", "minimised": sc}))
+        },
+    );
     agg.faults.declare(streams::FAULT_KINDS);
     agg.probes.declare(exec::PROBES);
     let wall = t0.elapsed().as_secs_f64();
@@ -145,7 +155,12 @@ fn replay(path: &str) -> i32 {
         }
     };
     let want = v["class"].as_str().unwrap_or("");
-    let out = execute(&sc);
+    let sc2 = sc.clone();
+    let Some(out) = simcore::with_timeout(move || execute(&sc2)) else {
+        println!("VIOLATION property={PROPERTY} replay={path}");
+        println!("  class=hang detail: the replayed run did not return within {} s", simcore::run_timeout().as_secs());
+        return 1;
+    };
     match out.fail {
         Some(f) => {
             println!("VIOLATION property={PROPERTY} replay={path}");
